@@ -202,6 +202,10 @@ pub fn run_pipeline(
             Ok(fds) => fds_capture_stdout = Some(fds),
             Err(e) => {
                 println_stderr!("cicada: pipeline2: {}", e);
+                for fds in pipes {
+                    libs::close(fds.0);
+                    libs::close(fds.1);
+                }
                 return (false, CommandResult::error());
             }
         }
@@ -213,12 +217,17 @@ pub fn run_pipeline(
                     libs::close(fds.1);
                 }
                 println_stderr!("cicada: pipeline3: {}", e);
+                for fds in pipes {
+                    libs::close(fds.0);
+                    libs::close(fds.1);
+                }
                 return (false, CommandResult::error());
             }
         }
     }
 
     let mut cmd_result = CommandResult::new();
+    let mut failed_to_start = false;
     for i in 0..length {
         let child_id: i32 = run_single_program(
             sh,
@@ -235,6 +244,28 @@ pub fn run_pipeline(
 
         if child_id > 0 && !cl.background {
             fg_pids.push(child_id);
+        }
+        if child_id == 0 {
+            // the stage could not be started (its here-string pipe or the
+            // fork failed): the pipeline fails. What is left of its pipes
+            // is closed, so that the stages already running see the end of
+            // their input / a closed reader, and nothing more is started.
+            for fds in pipes.iter_mut() {
+                if fds.0 >= 0 {
+                    libs::close(fds.0);
+                    fds.0 = -1;
+                }
+                if fds.1 >= 0 {
+                    libs::close(fds.1);
+                    fds.1 = -1;
+                }
+            }
+            for fds in [&fds_capture_stdout, &fds_capture_stderr].iter().copied().flatten() {
+                libs::close(fds.0);
+                libs::close(fds.1);
+            }
+            failed_to_start = true;
+            break;
         }
     }
 
@@ -256,6 +287,9 @@ pub fn run_pipeline(
         if !capture {
             cmd_result = _cr;
         }
+    }
+    if failed_to_start && cmd_result.status == 0 {
+        cmd_result.status = 1;
     }
     (term_given, cmd_result)
 }
@@ -297,7 +331,8 @@ fn run_single_program(
             Ok(fds) => fds_stdin = Some(fds),
             Err(e) => {
                 println_stderr!("cicada: pipeline4: {}", e);
-                return 1;
+                *cmd_result = CommandResult::error();
+                return 0;
             }
         }
     }
